@@ -315,7 +315,12 @@ def check(case, ctx):
                 a, b = o.domain
                 o.reverse()
                 e['inserted'] = []
-                a2, b2 = o.domain     # (reverse re-bases an un-normalised knot vector at 0; only the reversal itself is judged)
+                a2, b2 = o.domain
+                # the reversed curve is C(a + b - u) on the SAME domain (what a freshly built curve with the reversed data reports)
+                if not ctx.check(abs(a2 - a) <= 1e-12 * max(1.0, abs(a), abs(b)) and abs(b2 - b) <= 1e-12 * max(1.0, abs(a), abs(b)),
+                                 'reverse/domain-changed', 'reverse() moved the domain of the curve from %r to %r (normalize_kv=%s)'
+                                 % ((a, b), (a2, b2), e['meta'].get('normalize_kv') if isinstance(e.get('meta'), dict) else '?'), what='shadow'):
+                    return
 
                 def shadow(q, a=a, b=b, a2=a2, b2=b2):
                     if q[0] == a2:
